@@ -1,11 +1,14 @@
 import OrbitModel.Proofs.Crash
 import OrbitModel.Proofs.JoinClosed
+import OrbitModel.Proofs.JoinSingle
 /-!
 # Corollaries of `crash_recovers`   (C05)
 
 * `batchOk_of_input`, `ValidHist.merged_of_input`: the result-level hypotheses of `ValidHist.merged`
   (`BatchOk.parents`, "all reported entries are in the log") follow from hypotheses on the *input*
-  of `replicationLoadComplete`: the batch brings its parents and the heads of each log cover it.
+  of `replicationLoadComplete`: each log brings its parents and its heads cover it.
+* `ValidHist.merged_of_singles`: the same for the batches of the current replicator (one log per
+  fetched entry), when the batch is parent-closed among acceptable entries.
 * `crash_recovers_values`: `Values()` of the recovered log is `Values()` of the pre-crash log
   restricted to the recovered hashes.
 -/
@@ -15,31 +18,36 @@ theorem batchOk_of_input {acl : Acl} {U : List Entry} (hU : HashDet U) (hM : Clo
     {T : List Eff} {L : Log} {logs : List (OMap × OMap)} (hI : HistInv U id T L)
     (hB : BatchHonest U L.id logs) (hF : ∀ p ∈ logs, ∀ e ∈ p.1, Eff.block e.hash ∈ T)
     (hP : BatchParents L logs) :
-    BatchOk U T L logs (joinAllPinned acl L logs).1 ∧
-    ((joinAllPinned acl L logs).2 = true → BatchCovered logs →
-      ∀ p ∈ logs, ∀ e ∈ p.1, e ∈ (joinAllPinned acl L logs).1.entries) := by
+    BatchOk U T L logs (joinAll acl L logs) ∧
+    (BatchCovered logs → ∀ e ∈ joinedEntries acl L logs, e ∈ (joinAll acl L logs).entries) := by
   obtain ⟨h1, h2⟩ := joinAll_closed (acl := acl) hU hM logs L hI.good hI.closed hB hP
   exact ⟨⟨hB, hF, fun _ _ e _ he n hn => h1 e he n hn⟩, h2⟩
 
-/-- `ValidHist.merged` from hypotheses on the batch alone -/
+/-- `ValidHist.merged` from hypotheses on the batch alone: every log brings its own parents and is
+covered by its heads (whichever logs are then rejected) -/
 theorem ValidHist.merged_of_input {acl : Acl} {U : List Entry} (hU : HashDet U) (hM : ClockMono U)
     {id : Nat} {ops : List SOp} {L : Log} (logs : List (OMap × OMap)) (hv : ValidHist acl U id ops L)
     (hB : BatchHonest U L.id logs) (hF : ∀ p ∈ logs, ∀ e ∈ p.1, Eff.block e.hash ∈ trace ops)
-    (hP : BatchParents L logs) (hcov : BatchCovered logs) (hok : (joinAllPinned acl L logs).2 = true) :
+    (hP : BatchParents L logs) (hcov : BatchCovered logs) :
     ValidHist acl U id
-      (ops ++ [.merged (logs.flatMap (·.1)) ((sortedHeads (joinAllPinned acl L logs).1).map (·.hash))])
-      (joinAllPinned acl L logs).1 := by
+      (ops ++ [.merged (joinedEntries acl L logs) ((sortedHeads (joinAll acl L logs)).map (·.hash))])
+      (joinAll acl L logs) := by
   obtain ⟨h1, h2⟩ := batchOk_of_input (acl := acl) hU hM (valid_inv hU hM hv).1 hB hF hP
-  exact ValidHist.merged logs _ hv h1 (Prod.ext rfl hok) (h2 hok hcov)
+  exact ValidHist.merged logs _ hv h1 rfl (h2 hcov)
 
-/-- `ValidHist.aborted` from hypotheses on the batch alone -/
-theorem ValidHist.aborted_of_input {acl : Acl} {U : List Entry} (hU : HashDet U) (hM : ClockMono U)
+/-- `ValidHist.merged` for a batch of single-entry logs (what the replicator delivers) that is
+parent-closed among acceptable entries: no accepted child of a rejected parent -/
+theorem ValidHist.merged_of_singles {acl : Acl} {U : List Entry} (hU : HashDet U) (hM : ClockMono U)
     {id : Nat} {ops : List SOp} {L : Log} (logs : List (OMap × OMap)) (hv : ValidHist acl U id ops L)
     (hB : BatchHonest U L.id logs) (hF : ∀ p ∈ logs, ∀ e ∈ p.1, Eff.block e.hash ∈ trace ops)
-    (hP : BatchParents L logs) (hok : (joinAllPinned acl L logs).2 = false) :
-    ValidHist acl U id ops (joinAllPinned acl L logs).1 :=
-  ValidHist.aborted logs _ hv (batchOk_of_input (acl := acl) hU hM (valid_inv hU hM hv).1 hB hF hP).1
-    (Prod.ext rfl hok)
+    (hS : Singles logs) (hP : BatchParentsAcc acl L logs) :
+    ValidHist acl U id
+      (ops ++ [.merged (joinedEntries acl L logs) ((sortedHeads (joinAll acl L logs)).map (·.hash))])
+      (joinAll acl L logs) := by
+  have hI := (valid_inv hU hM hv).1
+  have hC := joinAll_singles_closed hU hM hI.good hI.closed hB hS hP
+  exact ValidHist.merged logs _ hv ⟨hB, hF, fun _ _ e _ he n hn => hC e he n hn⟩ rfl
+    (joinedEntries_singles hU hM logs L hI.good hB hS)
 
 /-- `Values()` of a good part of a good log is `Values()` of the whole, filtered -/
 theorem values_restrict {U : List Entry} (hU : HashDet U) (hT : TieFree U) (hM : ClockMono U)
@@ -56,16 +64,15 @@ theorem values_restrict {U : List Entry} (hU : HashDet U) (hT : TieFree U) (hM :
     obtain ⟨y, hy, hyx⟩ := (has_iff _ _).mp hh
     exact (hU y (hD.inv.sub y hy) x (hL.inv.sub x hx) hyx) ▸ hy
 
-/-- **C05, last clause.** The recovered hashes are the entries of a good log whose `Values()` is the
-pre-crash `Values()` restricted to the recovered hashes. (By `values_unique`, every good log with
-that entry set — in particular the one `Load` rebuilds — lists them identically.) -/
-theorem crash_recovers_values {acl : Acl} {U : List Entry} (hU : HashDet U) (hT : TieFree U)
+/-- the durable part `D` of the pre-crash log that recovery returns, with its listing -/
+theorem crash_recovers_part {acl : Acl} {U : List Entry} (hU : HashDet U) (hT : TieFree U)
     (hM : ClockMono U) {id : Nat} {ops : List SOp} {L : Log} (hvalid : ValidHist acl U id ops L)
     (p : List Eff) (hp : p <+: trace ops) :
-    ∃ D, Good U D ∧ (∀ h, h ∈ recover U (diskOf p) ↔ has D.entries h = true) ∧
+    ∃ D, Good U D ∧ Closed D ∧ (∀ e ∈ D.entries, e ∈ L.entries) ∧
+      (∀ h, h ∈ recover U (diskOf p) ↔ has D.entries h = true) ∧
       values D = (values L).filter (fun e => (recover U (diskOf p)).contains e.hash) := by
-  obtain ⟨D, hG, _, hDL, hR⟩ := (crash_recovers hU hM hvalid p hp).2.2.2.2
-  refine ⟨D, hG, hR, ?_⟩
+  obtain ⟨D, hG, hC, hDL, hR⟩ := (crash_recovers hU hM hvalid p hp).2.2.2.2
+  refine ⟨D, hG, hC, hDL, hR, ?_⟩
   rw [values_restrict hU hT hM hG (valid_inv hU hM hvalid).1.good hDL]
   apply List.filter_congr
   intro x _
@@ -74,5 +81,16 @@ theorem crash_recovers_values {acl : Acl} {U : List Entry} (hU : HashDet U) (hT 
     · rfl
     · rw [(hR x.hash).mp (by simpa using hc)] at hh; cases hh
   · exact ((List.contains_iff_mem ..).mpr ((hR x.hash).mpr hh)).symm
+
+/-- **C05, last clause.** The recovered hashes are the entries of a good log whose `Values()` is the
+pre-crash `Values()` restricted to the recovered hashes. (By `values_unique`, every good log with
+that entry set — in particular the one `Load` rebuilds — lists them identically.) -/
+theorem crash_recovers_values {acl : Acl} {U : List Entry} (hU : HashDet U) (hT : TieFree U)
+    (hM : ClockMono U) {id : Nat} {ops : List SOp} {L : Log} (hvalid : ValidHist acl U id ops L)
+    (p : List Eff) (hp : p <+: trace ops) :
+    ∃ D, Good U D ∧ (∀ h, h ∈ recover U (diskOf p) ↔ has D.entries h = true) ∧
+      values D = (values L).filter (fun e => (recover U (diskOf p)).contains e.hash) := by
+  obtain ⟨D, hG, _, _, hR, hV⟩ := crash_recovers_part hU hT hM hvalid p hp
+  exact ⟨D, hG, hR, hV⟩
 
 end Orbit
